@@ -9,6 +9,8 @@ pub mod c04;
 pub mod c03;
 pub mod c12;
 pub mod c06;
+pub mod c05;
+pub mod c14;
 pub mod c18;
 
 pub fn lookup(id: &str) -> Option<&'static dyn Prop> {
@@ -23,6 +25,8 @@ pub fn lookup(id: &str) -> Option<&'static dyn Prop> {
         "C03" => Some(&c03::C03),
         "C12" => Some(&c12::C12),
         "C06" => Some(&c06::C06),
+        "C05" => Some(&c05::C05),
+        "C14" => Some(&c14::C14),
         "C18" => Some(&c18::C18),
         _ => None,
     }
